@@ -157,49 +157,46 @@ def run(ctx):
     if docs:
         ctx.note("documentation truth tables parsed: %d and-rows, %d or-rows" % (len(docs["&&"]), len(docs["||"])))
 
-    # ---------------- R15b
+    # ---------------- R15b: decision tables by abstract interpretation (lib/absint.py): the inputs are opaque symbols,
+    # only the assumed order of (measured value, condition value) is known; every spelling of the table evaluates alike
+    from lib import absint
+    variants = list(DIST)
     b = ctx.anchor("R15b", QC + "CountComparison::compare_distance")
     if b:
-        ms = fa.matches(b.path)
-        outer = [m for m in ms if m["scrut_ty"].endswith("CountComparison")]
-        inner = [m for m in ms if "Ordering" in m["scrut_ty"]]
-        if not outer:
-            ctx.ob("R15b", "compare_distance:table", False, "outer match not found (idiom not recognised)", b.where)
-        else:
-            arms = outer[0]["arms"]
-            for k, a in enumerate(arms):
-                vname = last(a["p"].get("path"))
-                lo = a["line"]
-                hi = arms[k + 1]["line"] if k + 1 < len(arms) else 10 ** 9
-                im = [m for m in inner if lo <= m["line"] < hi]
-                tbl = {}
-                if im:
-                    for ia in im[0]["arms"]:
-                        for p in flatten_or(ia["p"]):
-                            tbl[last(p.get("path"))] = (V.get(ctor_of(ia["body"]) or ""), lit_bool(ia["body"]))
-                for o in ("Less", "Equal", "Greater"):
-                    want = DIST.get(vname, {}).get(o)
-                    ok = want is not None and tbl.get(o) == want
-                    ctx.ob("R15b", "compare_distance[%s][%s]" % (vname, o), ok,
-                           "-> %s(%s)" % want if ok else "distance comparison %s / ordering %s yields %s, expected %s" % (
-                               vname, o, tbl.get(o), want), "%s:%d" % (b.file, lo))
-            # orientation: distance.cmp(value)
-            cm = [(i, t) for i, t in cfg.calls(b) if (cfg.callee_decl(t) or "").endswith("Ord::cmp")]
-            ok = bool(cm) and all((cfg.op_origin(b, t["a"][0]) or (0,))[0] == 2 for i, t in cm)
-            ctx.ob("R15b", "compare_distance:orientation", ok, "every ordering is distance.cmp(condition value)" if ok else
-                   "compare_distance no longer compares the distance (receiver) against the condition value", b.where)
+        for vname in variants:
+            for okey, oname in (("L", "Less"), ("E", "Equal"), ("G", "Greater")):
+                want = DIST[vname][oname]
+                try:
+                    it = absint.Interp(b, orders={("distance", "value"): okey})
+                    v = it.run({1: ("ref", ("enum", vname, [("sym", "value")])), 2: ("sym", "distance")})
+                    got = (V.get(v[1]), v[2][0][1]) if v[0] == "enum" and v[2] and v[2][0][0] == "bool" else absint.show(v)
+                    detail = None
+                except absint.Unknown as e:
+                    got, detail = None, "idiom not recognised: %s" % e
+                ok = got == want
+                ctx.ob("R15b", "compare_distance[%s][%s]" % (vname, oname), ok,
+                       "-> %s(%s)" % want if ok else "distance comparison %s with distance %s value yields %s, expected %s%s" % (
+                           vname, {"L": "<", "E": "==", "G": ">"}[okey], got, want, (" (" + detail + ")") if detail else ""), b.where)
     b = ctx.anchor("R15b", QC + "CountComparison::compare")
     if b:
-        ms = [m for m in fa.matches(b.path) if m["scrut_ty"].endswith("CountComparison")]
-        tbl = {last(a["p"].get("path")): [o for o in a["body"]["ops"] if o != "Deref"] for a in (ms[0]["arms"] if ms else [])}
+        import operator
+        pyop = {"Eq": operator.eq, "Ne": operator.ne, "Lt": operator.lt, "Le": operator.le, "Gt": operator.gt, "Ge": operator.ge}
         for vname, op in CMP_OP.items():
-            ok = tbl.get(vname) == [op]
-            ctx.ob("R15b", "compare[%s]" % vname, ok, "left %s right" % op if ok else
-                   "count comparison %s uses operators %s, expected %s" % (vname, tbl.get(vname), op), b.where)
-        cmps = [s for bi, s in cfg.assigns(b) if s["r"]["k"] == "bin" and s["r"]["op"] in ("Eq", "Ne", "Lt", "Le", "Gt", "Ge")]
-        ok = bool(cmps) and all((cfg.op_origin(b, s["r"]["a"]) or (0,))[0] == 2 for s in cmps)
-        ctx.ob("R15b", "compare:orientation", ok, "the measured count is the left operand of every comparison" if ok else
-               "CountComparison::compare swapped its operands", b.where)
+            got = {}
+            detail = None
+            for okey, n in (("L", -1), ("E", 0), ("G", 1)):
+                try:
+                    it = absint.Interp(b, orders={("count", "value"): okey})
+                    v = it.run({1: ("ref", ("enum", vname, [("sym", "value")])), 2: ("sym", "count")})
+                    got[okey] = v[1] if v[0] == "bool" else absint.show(v)
+                except absint.Unknown as e:
+                    got[okey] = None
+                    detail = "idiom not recognised: %s" % e
+            want = {"L": pyop[op](-1, 0), "E": pyop[op](0, 0), "G": pyop[op](1, 0)}
+            ok = got == want
+            ctx.ob("R15b", "compare[%s]" % vname, ok, "count %s value" % op if ok else
+                   "count comparison %s evaluates to %s for count <,==,> value; expected `count %s value` = %s%s" % (
+                       vname, got, op, want, (" (" + detail + ")") if detail else ""), b.where)
 
     # ---------------- R15c
     b = ctx.anchor("R15c", "agdb::db::DbImpl::evaluate_conditions")
